@@ -20,6 +20,10 @@ pub trait StackT: Any {
     fn fresh(&self) -> Box<dyn StackT>;
     fn copy(&mut self, v: &Value);
     fn extend(&mut self, vs: &[Value], exact_hint: bool);
+    /// copy / extend with the allocator calls of the stack's own operation (the shadow region and the
+    /// decoding of the JSON value are outside the measured section)
+    fn copy_measured(&mut self, v: &Value) -> u64;
+    fn extend_measured(&mut self, vs: &[Value]) -> u64;
     fn from_iter(&self, vs: &[Value]) -> Box<dyn StackT>;
     fn with_capacity(&self, n: usize) -> Box<dyn StackT>;
     fn merge_capacity(&self, srcs: &[&dyn StackT]) -> Box<dyn StackT>;
@@ -94,6 +98,24 @@ where
         for o in &os {
             let _ = self.shadow.push(o);
         }
+    }
+    fn copy_measured(&mut self, v: &Value) -> u64 {
+        let o = R::Owned::from_json(v);
+        let a0 = crate::alloc::allocs();
+        self.st.copy(&o);
+        let n = crate::alloc::allocs() - a0;
+        let _ = self.shadow.push(&o);
+        n
+    }
+    fn extend_measured(&mut self, vs: &[Value]) -> u64 {
+        let os: Vec<R::Owned> = vs.iter().map(R::Owned::from_json).collect();
+        let a0 = crate::alloc::allocs();
+        self.st.extend(os.iter());
+        let n = crate::alloc::allocs() - a0;
+        for o in &os {
+            let _ = self.shadow.push(o);
+        }
+        n
     }
     fn from_iter(&self, vs: &[Value]) -> Box<dyn StackT> {
         let os: Vec<R::Owned> = vs.iter().map(R::Owned::from_json).collect();
